@@ -196,7 +196,9 @@ def radians(x):
     if not _sym(x):
         return math.radians(x)
     _pi()
-    return SymReal(x.z * PI / 180)
+    if x.tag is not None and x.tag[0] == 'deg_of':
+        return x.tag[1]
+    return SymReal(x.z * PI / 180, tag=('rad_of', x))
 
 
 def degrees(x):
@@ -204,7 +206,9 @@ def degrees(x):
     if not _sym(x):
         return math.degrees(x)
     _pi()
-    return SymReal(x.z * 180 / PI)
+    if x.tag is not None and x.tag[0] == 'rad_of':
+        return x.tag[1]
+    return SymReal(x.z * 180 / PI, tag=('deg_of', x))
 
 
 def fabs(x):
